@@ -1,0 +1,19 @@
+//go:build verif
+
+package verifhook
+
+import (
+	"github.com/open2b/scriggo/internal/compiler"
+)
+
+type LexToken = compiler.VerifToken
+type LexResult = compiler.VerifLexResult
+
+var (
+	LexTemplate         = compiler.VerifLexTemplate
+	LexTemplateRecover  = compiler.VerifLexTemplateRecover
+	TokenTypeNames      = compiler.VerifTokenTypeNames
+	ParseTemplateSource = compiler.VerifParseTemplateSource
+	SyntaxErrorPosition = compiler.VerifSyntaxErrorPosition
+	EndRawIndex         = compiler.VerifEndRawIndex
+)
